@@ -108,11 +108,14 @@ def render_v2_text(case):
     return out
 
 
+# the character sets the property names, independent of the implementation's own table
+CHARSET_CODEC = {"ISO-8859-1": "latin_1", "1252": "cp1252", "NONE": "utf_8"}
+
+
 def body_codec(case):
-    from ofxtools import header as H
     if case["kind"] == "v2":
         return "utf_8"
-    return H.OFXHeaderV1.codecs[case["h"][5]]
+    return CHARSET_CODEC[case["h"][5]]
 
 
 def render_file(case):
